@@ -133,6 +133,9 @@ def grid_points(inplace_too=True):
         pts.append({"label": "ad3_m%d" % ml, "defs": ["TJV_AD=3", "TJV_ML=%d" % ml, "TJV_WITNESS"]})
         if inplace_too:
             pts.append({"label": "ad3_m%d_inplace" % ml, "defs": ["TJV_AD=3", "TJV_ML=%d" % ml, "INPLACE", "TJV_WITNESS"]})
+    for (ad, ml) in ((17, 5), (33, 9), (3, 65), (40, 100)):      # longer shapes (block counters, fast paths that start beyond 32 / 64 bytes)
+        pts.append({"label": "ad%d_m%d" % (ad, ml), "defs": ["TJV_AD=%d" % ad, "TJV_ML=%d" % ml, "TJV_WITNESS"]})
+    pts.append({"label": "ad3_m65_inplace", "defs": ["TJV_AD=3", "TJV_ML=65", "INPLACE", "TJV_WITNESS"]})
     for ml in (0, 5, 8):
         pts.append({"label": "ad3_m%d_adjacent" % ml, "defs": ["TJV_AD=3", "TJV_ML=%d" % ml, "TJV_ADJ", "TJV_WITNESS"]})
     pts.append({"label": "ad0_m0_null", "defs": ["TJV_AD=0", "TJV_ML=0", "TJV_NULLS", "TJV_WITNESS"]})
@@ -155,8 +158,8 @@ for nnn in (128, 192, 256):
                           "tinyjambu_aead_check_tag"],
             "grid": grid_points(),
             "tags": spec_tags(props), "props": props, "default_props": props,
-            "unwind": 40, "timeout": 300, "cost": 30, "mem_gb": 6, "mem_share": 0.3,
-            "bounded": "concrete (adlen, mlen) grid: adlen in {0,1,2,3,4,7} x mlen 5, adlen 3 x mlen in {0,1,2,3,4,6,7,8,11,34}, in place and separate, neighbouring non-overlapping buffers (gap 0..7), NULL with length 0; all keys, nonces and data symbolic; whole real call tree except the permutation (loops fully unwound, unwinding assertions on)",
+            "unwind": 110, "timeout": 300, "cost": 30, "mem_gb": 6, "mem_share": 0.3,
+            "bounded": "concrete (adlen, mlen) grid: longer shapes (17,5), (33,9), (3,65), (40,100), (3,65) in place; adlen in {0,1,2,3,4,7} x mlen 5, adlen 3 x mlen in {0,1,2,3,4,6,7,8,11,34}, in place and separate, neighbouring non-overlapping buffers (gap 0..7), NULL with length 0; all keys, nonces and data symbolic; whole real call tree except the permutation (loops fully unwound, unwinding assertions on)",
         })
 
 for nnn in (128, 192, 256):
